@@ -111,7 +111,10 @@ func ruleRebuiltTablesFromNewPools(c *Ctx, rule string) {
 		return
 	}
 	n := 0
-	for _, f := range withAnon(fn) {
+	for _, f := range fnsAround(fn, 2) {
+		if nm := bareName(f); nm == "syncCacheAfterCreate" || nm == "syncCacheAfterDel" {
+			continue // the single-entry move helpers are not part of a rebuild
+		}
 		allInstrs(f, func(in ssa.Instruction) {
 			mu, ok := in.(*ssa.MapUpdate)
 			if !ok || namedStructName(mu.Value.Type()) != "FloatingIP" {
@@ -539,6 +542,32 @@ func ruleProviderFieldsOnceOrFresh(c *Ctx, rule string) {
 						okS = true
 					}
 				}
+			}
+			if !okS && fn.Parent() == nil && len(staticSites[fn]) == 0 {
+				// a method used only as the method value handed to Once.Do: `p.init.Do(p.dial)`
+				uses, once := 0, 0
+				for _, g := range c.SrcFns {
+					if g.Pkg != fn.Pkg {
+						continue
+					}
+					allInstrs(g, func(in ssa.Instruction) {
+						mc, isMC := in.(*ssa.MakeClosure)
+						if !isMC {
+							return
+						}
+						w, isFn := mc.Fn.(*ssa.Function)
+						if !isFn || w.Name() != fn.Name()+"$bound" || w.Signature.String() == "" {
+							return
+						}
+						uses++
+						for _, ref := range *mc.Referrers() {
+							if call, isCall := ref.(ssa.CallInstruction); isCall && nameMatch(calleeName(call), "(*sync.Once).Do") {
+								once++
+							}
+						}
+					})
+				}
+				okS = uses > 0 && uses == once
 			}
 			c.ob(rule, fn, "store to grpcCloudProvider."+fieldName(fa.X.Type(), fa.Field), st, okS, "written on the fresh object or inside sync.Once.Do: concurrent AssignIP / UnAssignIP calls (different pods, no common lock) never race on it")
 		})
